@@ -320,7 +320,7 @@ Definition r_norm2 (u : list R) : R := r_dot u u.
 
 (* textbook Euclidean distance and cosine similarity of two vectors (of equal length) *)
 Definition euclid_s (u v : list R) : R := sqrt (r_sqdist u v).
-Definition cosine_s (u v : list R) : R := r_dot u v / sqrt (r_norm2 u * r_norm2 v).
+Definition cosine_s (u v : list R) : R := r_dot u v / (sqrt (r_norm2 u) * sqrt (r_norm2 v)).
 
 Definition scale (k : R) (u : list R) : list R := map (Rmult k) u.
 Definition zpadR (u : list R) : list R := u ++ repeat 0 (pad (length u)).
@@ -473,6 +473,12 @@ Proof.
   unfold r_norm2. induction u as [|x u IH]; cbn [r_dot]; [lra|]. nra.
 Qed.
 
+(* the same with one square root: |u| |v| = sqrt (|u|^2 |v|^2) *)
+Lemma cosine_s_alt : forall u v, cosine_s u v = r_dot u v / sqrt (r_norm2 u * r_norm2 v).
+Proof.
+  intros. unfold cosine_s. rewrite sqrt_mult by apply r_norm2_nonneg. reflexivity.
+Qed.
+
 Lemma r_sqdist_nonneg : forall u v, 0 <= r_sqdist u v.
 Proof.
   induction u as [|x u IH]; intros [|y v]; cbn [r_sqdist]; try lra. specialize (IH v). pose proof (Rle_0_sqr (x - y)) as Hsq. unfold Rsqr in Hsq. lra.
@@ -557,11 +563,11 @@ Proof.
 Qed.
 
 Lemma cosine_s_sym : forall u v, cosine_s u v = cosine_s v u.
-Proof. intros. unfold cosine_s. rewrite r_dot_comm. rewrite (Rmult_comm (r_norm2 u)). reflexivity. Qed.
+Proof. intros. rewrite !cosine_s_alt. rewrite r_dot_comm. rewrite (Rmult_comm (r_norm2 u)). reflexivity. Qed.
 
 Lemma cosine_s_range : forall u v, 0 < r_norm2 u -> 0 < r_norm2 v -> -1 <= cosine_s u v <= 1.
 Proof.
-  intros u v HA HB. unfold cosine_s.
+  intros u v HA HB. rewrite cosine_s_alt.
   pose proof (cauchy_schwarz u v) as HC.
   assert (HAB : 0 < r_norm2 u * r_norm2 v) by (apply Rmult_lt_0_compat; assumption).
   pose proof (sqrt_lt_R0 _ HAB) as Hs. pose proof (sqrt_sqrt _ (Rlt_le _ _ HAB)) as Hss.
@@ -591,7 +597,7 @@ Proof. unfold scale. induction u as [|x u IH]; cbn [map]; [reflexivity|]. rewrit
 Lemma cosine_s_scale_invariant : forall a b u v, 0 < a -> 0 < b -> 0 < r_norm2 u -> 0 < r_norm2 v ->
     cosine_s (scale a u) (scale b v) = cosine_s u v.
 Proof.
-  intros a b u v Ha Hb HA HB. unfold cosine_s, r_norm2. rewrite !r_dot_scale.
+  intros a b u v Ha Hb HA HB. rewrite !cosine_s_alt. unfold r_norm2. rewrite !r_dot_scale.
   fold (r_norm2 u). fold (r_norm2 v).
   assert (HAB : 0 < r_norm2 u * r_norm2 v) by (apply Rmult_lt_0_compat; assumption).
   assert (Hab : 0 < a * b) by (apply Rmult_lt_0_compat; assumption).
@@ -605,12 +611,12 @@ Lemma cosine_s_parallel : forall k u, 0 < k -> 0 < r_norm2 u -> cosine_s u (scal
 Proof.
   intros k u Hk HA.
   rewrite <- (scale_1 u) at 1. rewrite (cosine_s_scale_invariant 1 k u u) by lra.
-  unfold cosine_s. fold (r_norm2 u). rewrite sqrt_square by lra. field. lra.
+  rewrite cosine_s_alt. fold (r_norm2 u). rewrite sqrt_square by lra. field. lra.
 Qed.
 
 Lemma cosine_s_opposite : forall k u, k < 0 -> 0 < r_norm2 u -> cosine_s u (scale k u) = -1.
 Proof.
-  intros k u Hk HA. unfold cosine_s, r_norm2.
+  intros k u Hk HA. rewrite cosine_s_alt. unfold r_norm2.
   rewrite <- (scale_1 u) at 1. rewrite !r_dot_scale. fold (r_norm2 u).
   assert (Hp : 0 < - k * r_norm2 u) by (apply Rmult_lt_0_compat; lra).
   replace (r_norm2 u * (k * k * r_norm2 u)) with ((- k * r_norm2 u) * (- k * r_norm2 u)) by ring.
@@ -640,7 +646,7 @@ Qed.
 Lemma cosine_sym_lemma : forall f1 f2 : list (block8 R), cosine f1 f2 = cosine f2 f1.
 Proof.
   intros. unfold cosine. cbv zeta. rewrite !dot_unpacked_R. rewrite r_dot_comm.
-  rewrite (common_len_comm f1 f2). rewrite (Rmult_comm (norm2 Rops (common_len Rops f2 f1) f1)). reflexivity.
+  rewrite (common_len_comm f1 f2). rewrite (Rmult_comm (sqrt (norm2 Rops (common_len Rops f2 f1) f1))). reflexivity.
 Qed.
 
 Lemma scale_length : forall k u, length (scale k u) = length u.
